@@ -35,7 +35,7 @@ package tabular
 
 //@ func NewErrorContainer
 //@   tags C11,C09
-//@   assigns nothing
+//@   assigns new(ErrorContainer)
 //@   ensures result != nil && fresh(result) && len(result.errors_) == 0 && result.errors_ != nil && fresh(result.errors_)
 
 //@ func (*ErrorContainer).AddError
@@ -113,7 +113,7 @@ package tabular
 //@   ensures [item] result.raw == object @C01
 //@   ensures [text] result.str == text(object, world) @C01
 //@   ensures [ok] cellValOK(result) && !result.mustCalc @C01
-//@   ensures [detached] result.inRow == nil && result.columnNum == 0 && result.properties == nil
+//@   ensures [detached] result.inRow == nil && result.columnNum == 0 && result.properties == nil && len(result.callbacks.addTime) == 0 && len(result.callbacks.renderTime) == 0 && len(result.callbacks.preCellRenderTime) == 0 && len(result.callbacks.postCellRenderTime) == 0
 //@   ensures [height-is-lines] !impl(dyn(object), Heighter) && dyn(object) != type[Cell] ==> result.height == nlines(result.str) @C18
 
 //@ func (Cell).Item
@@ -381,26 +381,27 @@ package tabular
 
 //@ func newSeparator
 //@   tags C02,C09
-//@   assigns nothing
+//@   assigns new(Row)
 //@   ensures result != nil && fresh(result) && result.isSeparator && result.cells == nil && result.inTable == nil && result.ErrorContainer == nil && result.rowNum == 0 && result.properties == nil
 
 //@ func NewRowWithCapacity
 //@   tags C02,C09
 //@   requires [capacity-nonneg] 0 <= c && c <= 1099511627776
-//@   assigns nothing
-//@   ensures WFrow(result) && fresh(result) && len(result.cells) == 0 && fresh(result.cells) && result.ErrorContainer == nil && result.rowNum == 0 && result.properties == nil
+//@   assigns new(Row)
+//@   ensures WFrow(result) && fresh(result) && len(result.cells) == 0 && fresh(result.cells) && result.ErrorContainer == nil && result.rowNum == 0 && result.properties == nil && rowProps(result) && cellsOwn(result)
 //@   exit unfold chainOK(heap[valueProperty.chain], heap[valueProperty.key], heap[valueProperty.val], result.properties)
 
 //@ func NewRow
 //@   tags C02,C09
-//@   assigns nothing
-//@   ensures WFrow(result) && fresh(result) && len(result.cells) == 0 && fresh(result.cells) && result.ErrorContainer == nil && result.rowNum == 0 && result.properties == nil
+//@   assigns new(Row)
+//@   ensures WFrow(result) && fresh(result) && len(result.cells) == 0 && fresh(result.cells) && result.ErrorContainer == nil && result.rowNum == 0 && result.properties == nil && rowProps(result) && cellsOwn(result)
+//@   exit unfold chainOK(heap[valueProperty.chain], heap[valueProperty.key], heap[valueProperty.val], result.properties)
 
 //@ func (*ATable).NewRowSizedFor
 //@   tags C02,C09
 //@   requires t != nil && 0 <= t.nColumns && t.nColumns <= 1099511627776
-//@   assigns nothing
-//@   ensures WFrow(result) && fresh(result) && len(result.cells) == 0 && fresh(result.cells) && result.ErrorContainer == nil && result.rowNum == 0 && result.properties == nil
+//@   assigns new(Row)
+//@   ensures WFrow(result) && fresh(result) && len(result.cells) == 0 && fresh(result.cells) && result.ErrorContainer == nil && result.rowNum == 0 && result.properties == nil && rowProps(result) && cellsOwn(result)
 //@   exit unfold chainOK(heap[valueProperty.chain], heap[valueProperty.key], heap[valueProperty.val], result.properties)
 
 //@ func (*ATable).resizeColumnsAtLeast
@@ -472,6 +473,7 @@ package tabular
 //@   ensures [earlier-errors-kept] old(ecOf(errTaker, heap[Row.ErrorContainer])) != nil ==> forall i int :: {old(ecOf(errTaker, heap[Row.ErrorContainer]).errors_[i])} 0 <= i && i < old(len(ecOf(errTaker, heap[Row.ErrorContainer]).errors_)) ==> ecOf(errTaker, heap[Row.ErrorContainer]).errors_[i] == old(ecOf(errTaker, heap[Row.ErrorContainer]).errors_[i])
 //@   ensures [no-nil] old(nonnil(ecOf(errTaker, heap[Row.ErrorContainer]))) ==> nonnil(ecOf(errTaker, heap[Row.ErrorContainer]))
 //@   ensures [log-prefix] forall j int :: {cbErrLog[j]} j < old(cbErrN) ==> cbErrLog[j] === old(cbErrLog[j])
+//@   ensures [new-container-fresh] old(ecOf(errTaker, heap[Row.ErrorContainer])) == nil && ecOf(errTaker, heap[Row.ErrorContainer]) != nil ==> fresh(ecOf(errTaker, heap[Row.ErrorContainer])) && fresh(ecOf(errTaker, heap[Row.ErrorContainer]).errors_)
 //@   ensures [arr] old(ecOf(errTaker, heap[Row.ErrorContainer])) != nil ==> (ecOf(errTaker, heap[Row.ErrorContainer]).errors_.arr == old(ecOf(errTaker, heap[Row.ErrorContainer]).errors_.arr) && ecOf(errTaker, heap[Row.ErrorContainer]).errors_.off == old(ecOf(errTaker, heap[Row.ErrorContainer]).errors_.off) && ecOf(errTaker, heap[Row.ErrorContainer]).errors_.cap == old(ecOf(errTaker, heap[Row.ErrorContainer]).errors_.cap)) || fresh(ecOf(errTaker, heap[Row.ErrorContainer]).errors_)
 //@   loop#1 invariant -1 <= rangeindex && rangeindex < len(cbList)
 //@   loop#1 invariant forall i int :: {cbList[i]} 0 <= i && i < len(cbList) ==> cbList[i] != nil
@@ -497,7 +499,13 @@ package tabular
 //@   requires [row-shape] r.inTable == nil ==> (r.isSeparator ==> r.cells == nil) && (r.cells != nil ==> WFrow(r))
 //@   requires [row-attached] r.inTable != nil ==> attached(r)
 //@   requires [cell-ok] chainOK(heap[valueProperty.chain], heap[valueProperty.key], heap[valueProperty.val], c.properties) && cbsLive(c.callbacks)
+//@   assigns when r.cells != nil: r.cells, when r.cells != nil: elemscap(r.cells), r.ErrorContainer, new(ErrorContainer), when r.ErrorContainer != nil: r.ErrorContainer.errors_, when r.ErrorContainer != nil: elemscap(r.ErrorContainer.errors_), when r.inTable != nil: r.inTable.columns, when r.inTable != nil: r.inTable.nColumns, when r.inTable != nil: elemscap(r.inTable.columns), new(column), new(valueProperty), ghost cbErrN, ghost cbErrLog
 //@   ensures [returns-row] result == r
+//@   ensures [error-container] (old(r.ErrorContainer) != nil ==> r.ErrorContainer == old(r.ErrorContainer)) && (old(r.ErrorContainer) == nil && r.ErrorContainer != nil ==> fresh(r.ErrorContainer) && fresh(r.ErrorContainer.errors_)) && rowOwn(r) @C11
+//@   ensures [errors-array] old(r.ErrorContainer) != nil ==> (r.ErrorContainer.errors_.arr == old(r.ErrorContainer.errors_.arr) && r.ErrorContainer.errors_.off == old(r.ErrorContainer.errors_.off) && r.ErrorContainer.errors_.cap == old(r.ErrorContainer.errors_.cap)) || fresh(r.ErrorContainer.errors_)
+//@   ensures [cells-array] old(r.cells) != nil ==> (r.cells.arr == old(r.cells.arr) && r.cells.off == old(r.cells.off) && r.cells.cap == old(r.cells.cap)) || fresh(r.cells)
+//@   ensures [chains] old(r.cells) != nil && old(cellsOwn(r)) ==> cellsOwn(r)
+//@   ensures [other-chains-untouched] chainsStable(old(heap[valueProperty.chain]), old(heap[valueProperty.key]), old(heap[valueProperty.val]), heap[valueProperty.chain], heap[valueProperty.key], heap[valueProperty.val], old(alloc))
 //@   ensures [separator-misuse-is-one-error] old(r.cells) == nil ==> r.cells == nil && r.ErrorContainer != nil && len(r.ErrorContainer.errors_) == errCount(old(r.ErrorContainer), old(heap[ErrorContainer.errors_])) + 1 @C11
 //@   ensures [one-more-cell] old(r.cells) != nil ==> len(r.cells) == old(len(r.cells)) + 1 && r.cells[len(r.cells)-1].raw === c.raw && r.cells[len(r.cells)-1].str == c.str @C02
 //@   ensures [earlier-cells-kept] old(r.cells) != nil ==> forall j int :: {r.cells[j].raw} {old(r.cells[j].raw)} 0 <= j && j < old(len(r.cells)) ==> r.cells[j].raw === old(r.cells[j].raw) && r.cells[j].str == old(r.cells[j].str) @C02
@@ -569,3 +577,33 @@ package tabular
 //@   loop#1 invariant (t.rows.arr == old(t.rows.arr) && t.rows.off == old(t.rows.off) && t.rows.cap == old(t.rows.cap)) || fresh(t.rows)
 //@   loop#1 invariant (t.columns.arr == old(t.columns.arr) && t.columns.off == old(t.columns.off) && t.columns.cap == old(t.columns.cap)) || fresh(t.columns)
 //@   loop#1 decreases len(row.cells) - rangeindex
+
+//@ func (*ATable).AppendNewRow
+//@   tags C02,C09
+//@   requires [table] WF(t) && tblProps(t) && colsOwn(t) && len(t.rows) <= 1099511627774
+//@   assigns t.rows, elemscap(t.rows), new(Row), t.columns, t.nColumns, elemscap(t.columns), new(column), t.ErrorContainer.errors_, elemscap(t.ErrorContainer.errors_), new(valueProperty), ghost cbErrN, ghost cbErrLog
+//@   ensures [invariant] WF(t) && tblProps(t) && colsOwn(t)
+//@   ensures [appended] len(t.rows) == old(len(t.rows)) + 1 && t.rows[len(t.rows)-1] == result && fresh(result) && len(result.cells) == 0 && !result.isSeparator && result.rowNum == len(t.rows) && result.inTable == t @C02
+//@   ensures [earlier-rows-kept] forall i int :: {t.rows[i]} {old(t.rows[i])} 0 <= i && i < old(len(t.rows)) ==> t.rows[i] == old(t.rows[i]) @C02
+//@   ensures [columns-unchanged] t.nColumns == old(t.nColumns) && t.headerRow == old(t.headerRow) @C02
+//@   call AddRow before unfold chainOK(heap[valueProperty.chain], heap[valueProperty.key], heap[valueProperty.val], nil)
+
+//@ func (*ATable).AddRowItems
+//@   tags C02,C09
+//@   requires [table] WF(t) && tblProps(t) && colsOwn(t) && len(t.rows) <= 1099511627774 && len(items) <= 1099511627774
+//@   requires [nested-cells-ok] forall i int :: {items[i]} 0 <= i && i < len(items) ==> (dyn(items[i]) == type[Cell] ==> cellValOK(items[i].(Cell)))
+//@   assigns t.rows, elemscap(t.rows), new(Row), t.columns, t.nColumns, elemscap(t.columns), new(column), t.ErrorContainer.errors_, elemscap(t.ErrorContainer.errors_), new(valueProperty), new(ErrorContainer), ghost cbErrN, ghost cbErrLog
+//@   ensures [invariant] WF(t) && tblProps(t) && colsOwn(t)
+//@   ensures [appended] len(t.rows) == old(len(t.rows)) + 1 && fresh(t.rows[len(t.rows)-1]) && !t.rows[len(t.rows)-1].isSeparator && len(t.rows[len(t.rows)-1].cells) == len(items) @C02
+//@   ensures [items-in-order] forall k int :: {items[k]} 0 <= k && k < len(items) ==> t.rows[len(t.rows)-1].cells[k].raw === items[k] @C02
+//@   ensures [earlier-rows-kept] forall i int :: {t.rows[i]} {old(t.rows[i])} 0 <= i && i < old(len(t.rows)) ==> t.rows[i] == old(t.rows[i]) @C02
+//@   ensures [columns-follow] t.nColumns == max(old(t.nColumns), len(items)) && t.headerRow == old(t.headerRow) @C02
+//@   ensures [returns-table] result == mkiface(type[*ATable], box(t))
+//@   loop#1 invariant -1 <= rangeindex && rangeindex < len(items)
+//@   loop#1 invariant WFrow(r) && rowProps(r) && cellsOwn(r) && fresh(r) && fresh(r.cells) && len(r.cells) == rangeindex + 1 && (r.ErrorContainer == nil || (fresh(r.ErrorContainer) && fresh(r.ErrorContainer.errors_)))
+//@   loop#1 invariant forall k int :: {items[k]} 0 <= k && k <= rangeindex ==> r.cells[k].raw === items[k]
+//@   loop#1 invariant WF(t) && tblProps(t) && colsOwn(t) && t.rows === old(t.rows) && t.columns === old(t.columns) && t.nColumns == old(t.nColumns) && t.headerRow == old(t.headerRow) && t.ErrorContainer == old(t.ErrorContainer) && t.ErrorContainer.errors_ === old(t.ErrorContainer.errors_)
+//@   loop#1 invariant forall i int :: {t.rows[i]} {old(t.rows[i])} 0 <= i && i < len(t.rows) ==> t.rows[i] == old(t.rows[i])
+//@   loop#1 decreases len(items) - rangeindex
+//@   loop#1 unfold chainOK(heap[valueProperty.chain], heap[valueProperty.key], heap[valueProperty.val], nil)
+//@   entry unfold chainOK(heap[valueProperty.chain], heap[valueProperty.key], heap[valueProperty.val], nil)
